@@ -49,6 +49,9 @@ type Child struct {
 	heldCount  int
 	Reports    int
 
+	keepShots bool
+	shots     map[int][2]*Screen
+
 	Timeout  time.Duration
 	Sessions int
 }
@@ -136,6 +139,16 @@ func StartChild(bin, scratch string) (*Child, error) {
 	c.Emu.OnMarker = func(kind, n int) {
 		if kind == 7777 {
 			c.lastMarker = n
+
+			// the screens exactly as they were when the marker came out of the pty:
+			// what follows in the same chunk already belongs to the next step
+			if c.keepShots {
+				if c.shots == nil || len(c.shots) > 8 {
+					c.shots = map[int][2]*Screen{}
+				}
+
+				c.shots[n] = [2]*Screen{c.Emu.X.Clone(), c.Emu.V.Clone()}
+			}
 		} else {
 			c.lastSync = n
 		}
